@@ -443,7 +443,7 @@ MC = {
     "timers+": _mc(TIMED, ("MLbad", "MLrty", "MConsume", "MTau"), NBuf=1, MaxRst=1),
     "flow_rx+": _mc(UNTIMED, ("MLbad", "MTau", "MKaReq", "MLother"), MaxRx=2, Kinds='{"good", "bad16"}', Deltas="{0, 1}",
                     WithRetry="TRUE"),
-    "flow_tx+": _mc(UNTIMED, ("MKaReq", "MLother", "MLrty", "MConsume"), MaxTx=2, Numbers="{0, 1}", WithRetry="TRUE"),
+    "flow_tx+": _mc(UNTIMED, ("MKaReq", "MLother", "MLrty"), MaxTx=2, MaxRx=1, Numbers="{0, 1}", WithRetry="TRUE"),
 }
 
 
